@@ -20,7 +20,8 @@ META = {
         "alike (sibling rule); one writerow per tract in iteration order, "
         "header iff not (file exists and mode 'a') in both writers; header "
         "construction works on a fresh list. csv quoting is not decided."
-        " Also: the header decision derives from `mode` and an existence test in both writers, both scrubbers hand a plain cell over unchanged, wrappers delegate to the method of their own name, 'ilots' cannot raise on lot divisions, joined elements are visibly str."),
+        " Also: the header decision derives from `mode` and an existence test in both writers, both scrubbers hand a plain cell over unchanged, wrappers delegate to the method of their own name, 'ilots' cannot raise on lot divisions, joined elements are visibly str."
+        ' Round 7: the collectors behind the writers keep every element (no identity / membership filter on insert); result caches on the description are keyed by value.'),
     'families': ['TBL', 'EXC', 'SIB', 'ESCAPE', 'FORWARD', 'DEADPARAM', 'SIB-DEFAULTS'],
 }
 
